@@ -91,7 +91,7 @@ let proto file =
     | MDelete u -> "delete " ^ ds u
     | MComp (u, t, v) -> Printf.sprintf "comp %s %s %s" (ds u) (ds t) (value_string v)
     | MMaterial (a, v) -> Printf.sprintf "mat %s %s" (ds a) (ds v)
-    | MAsset (k, a, o, _) -> Printf.sprintf "asset %s %s" (match k with AMesh -> "mesh" | AImage -> "image" | AAudio -> "audio") (ds a)
+    | MAsset (k, a, o) -> Printf.sprintf "asset %s %s %s" (match k with AMesh -> "mesh" | AImage -> "image" | AAudio -> "audio") (ds a) (ds o)
     | MPromote -> "promote"
     | MNewHost _ -> "newhost"
     | MReqInit -> "reqinit"
@@ -99,7 +99,7 @@ let proto file =
   let canon_real (ws : string list) : string =
     (* drop the url of asset messages and the port of newhost: not compared *)
     match ws with
-    | "asset" :: k :: a :: _ -> Printf.sprintf "asset %s %s" k a
+    | "asset" :: k :: a :: o :: _ -> Printf.sprintf "asset %s %s %s" k a o
     | "newhost" :: _ -> "newhost"
     | _ -> String.concat " " ws in
   let i = ref 0 in
@@ -130,6 +130,18 @@ let proto file =
                | Some ce, Some pe -> if ce <> pe then app (OSetParent (ce, pe))
                | _ -> ())
           | [ "removetransports" ] -> app ORemoveTransports
+          | [ "addasset"; k; a; v ] ->
+              let kind = (match k with "0" -> KMaterial | "1" -> KClass AMesh | "2" -> KClass AImage | _ -> KClass AAudio) in
+              app (OAddAsset (kind, nd a, nd v))
+          | "addasset_index" :: _ -> ()
+          | [ "promote"; c ] -> app (OPromote (nd c))
+          | [ "appcmd"; n; "despawn"; h ] -> (match resolve pr pi (nd h) with Some e -> app (OAppCmd (nd n, CAppDespawn e)) | None -> ())
+          | [ "skin"; h; joints; poses ] ->
+              (match resolve pr pi (nd h) with
+               | Some e ->
+                   let js = List.filter_map (fun j -> resolve pr pi (nd j)) (split_on ',' joints) in
+                   app (OWrite (e, t_SKIN, VSkin (js, List.map nd (split_on ',' poses))))
+               | None -> ())
           | _ -> diff "%s: unknown op %s" (where ()) lines.(!i))
      | [ "FRAME"; p ] ->
          incr frames;
@@ -158,10 +170,23 @@ let proto file =
                let c = List.map int_of_string (split_on ',' (List.assoc "clients" ws)) in
                (c, List.assoc "status" ws)
            | [] -> ([], "none") in
-         let prev = try Hashtbl.find prev_clients pi with Not_found -> [] in
-         let evs = List.map (fun c -> (false, n_of_int c)) (List.filter (fun c -> not (List.mem c clients)) prev)
-                   @ List.map (fun c -> (true, n_of_int c)) (List.filter (fun c -> not (List.mem c prev)) clients) in
-         Hashtbl.replace prev_clients pi clients;
+         let self_kicked = List.filter_map (fun l -> match split_ws l with
+             | _ :: _ :: from :: "newhost" :: _ -> (try Some (int_of_string from) with _ -> None)
+             | _ -> None) (find "RCV") in
+         (* clients_id() as the frame's Update first saw it: what is left afterwards plus the client
+            this peer disconnected itself while handling its NewHost message *)
+         let clients_pre = clients in
+         let evs =
+           match find "NET" with
+           | l :: _ ->
+               let ws = List.map kv (split_ws l) in
+               List.filter_map (fun e ->
+                   if e = "" then None
+                   else
+                     let c = String.sub e 1 (String.length e - 1) in
+                     (try Some (e.[0] = '+', n_of_int (int_of_string c)) with _ -> None))
+                 (split_on ',' (try List.assoc "events" ws with Not_found -> "-"))
+           | [] -> [] in
          let st = match status with "connected" -> Some RConnected | "connecting" -> Some RConnecting | "disconnected" -> Some RDisconnected | _ -> None in
          let st = if pi = 0 && (try Hashtbl.find prev_status pi with Not_found -> "") = status then None else st in
          Hashtbl.replace prev_status pi status;
@@ -193,7 +218,11 @@ let proto file =
                froms := src :: !froms
              end) rcvs;
          let froms = List.rev !froms in
-         let o = { fo_conn_events = evs; fo_status = st;
+         let dls = List.filter_map (fun l -> match split_ws l with
+             | [ _; _; k; a; v ] -> (try Some (((match k with "1" -> AMesh | "2" -> AImage | _ -> AAudio), nd a), nd v) with _ -> None)
+             | _ -> None) (find "DL") in
+         let dls = List.map (fun ((k, a), v) -> ((k, a), v)) dls in
+         let o = { fo_downloads = dls; fo_conn_events = evs; fo_clients = List.map n_of_int clients_pre; fo_status = st;
                    fo_srv_poll = (if pi = 0 || true then List.map n_of_int froms else []);
                    fo_cli_poll = nat_of_int (List.length froms) } in
          g := gstep !g (StFrame (pn, o));
@@ -233,6 +262,14 @@ let proto file =
                  (dash (List.sort compare (List.map (ident pr) en.en_children)))
                  (dash (List.map string_of_int (List.sort compare (List.map int_of_n en.en_excl))))
                  (dash (List.map (fun (t, v) -> Printf.sprintf "%d:%s" t v) comps))) (entities pr) in
+           let alines = List.map (fun ((k, a), v) -> Printf.sprintf "AST %d %s %s %s" pi (ds k) (ds a) (ds v)) (assets_list pr) in
+           let ma = List.sort compare alines and ra = List.sort compare (find "AST") in
+           incr checked;
+           if ma <> ra then begin
+             let only a b = List.filter (fun x -> not (List.mem x b)) a in
+             diff "%s frame of peer %d: assets differ; real only: [%s]; model only: [%s]" (where ()) pi
+               (String.concat " || " (only ra ma)) (String.concat " || " (only ma ra))
+           end;
            let me = List.sort compare elines and re = List.sort compare (find "E") in
            incr checked;
            if me <> re then begin
